@@ -141,6 +141,12 @@ def _T():
          'db_column': 'f2'},
         {'op': 'change_field', 'model': 'A', 'name': 'f3',
          'attrs': {'db_index': True}},
+        # ---- 40.. : the name f2 re-used by a nullable column that is then
+        # made NOT NULL with *another* initial value than template 8 uses
+        {'op': 'add_field', 'model': 'A', 'name': 'f2',
+         'fdef': dict(I, null=True)},
+        {'op': 'change_field', 'model': 'A', 'name': 'f2',
+         'attrs': {'null': False}, 'initial': 9},
     ]
     for e in t:
         e['app'] = 'app1'
@@ -159,6 +165,9 @@ EXTRA_SEQS = [
     [33, 34, 36],
     [28, 22, 37],               # relation added, barrier, its index dropped
     [38, 22, 39],               # column-keeping rename, barrier, new name used
+    [8, 5, 40, 41],             # NOT NULL with 5, renamed away, name re-used,
+    [8, 5, 40, 22, 41],         # NOT NULL with 9
+    [41, 5, 40, 8],
 ]
 N_FIELD_TEMPLATES = 14      # templates 0..13 only touch fields of model A
 TEMPLATES = _T()
